@@ -3,6 +3,7 @@ package main
 import (
 	"context"
 	"fmt"
+	"github.com/elementsproject/peerswap/txwatcher"
 	"os"
 	"strings"
 	"sync"
@@ -335,6 +336,21 @@ func init() {
 				role := rolesWanted[r.intn(len(rolesWanted))]
 				all = append(all, scn{role: role, steps: genScenario(r, role, r.intn(3) > 0)})
 			}
+			if prop == "C07" {
+				// the REAL RPC watcher under the maker, the wallet put its change at index 0 and the swap output at
+				// index 1, and the change is spent before the CSV matures: the refund must still be triggered
+				for _, role := range rolesWanted {
+					for _, msg := range []string{"", "cancel"} {
+						st := c07RealWatcherRefund(role, msg)
+						res.Evaluations++
+						res.Histogram["real RPC watcher, swap output at index 1: final "+st]++
+						if st != "State_ClaimedCsv" {
+							res.addFinding("C07/"+role+"/csv-matured-no-refund/real-rpc-watcher/swap-output-not-first", "the CSV of the swap output (index 1, index 0 spent) matured on the real RPC watcher but no refund followed: final "+st,
+								map[string]interface{}{"role": role, "schedule": "maker at rest with its CSV watch on the real BlockchainRpcTxWatcher; gettxout answers only for output 1; 1010 confirmations; HandleCsvTx; message: " + msg})
+						}
+					}
+				}
+			}
 			runMany(defaultCfg(), all, func(x scnResult) {
 				res.Evaluations++
 				k := scenarioKey(x.sc.steps)
@@ -465,4 +481,33 @@ func init() {
 			}
 		}
 	}
+}
+
+// c07RealWatcherRefund: a maker on the REAL RPC watcher whose swap output is output 1 of the opening transaction;
+// output 0 (change) is spent, so gettxout answers for index 1 only.  Returns the final state.
+func c07RealWatcherRefund(role, msg string) string {
+	w := newWorld(defaultCfg())
+	defer w.close()
+	one := uint32(1)
+	rpc := &fakeRpc{wantVout: &one}
+	rpc.set(rpcView{rpcHeight: 800000, txout: &txwatcher.TxOutResp{BestBlockHash: "match", Confirmations: 1}})
+	rw := txwatcher.NewBlockchainRpcTxWatcher(context.Background(), rpc, 3)
+	w.realBtcWatcher = rw
+	w.boot(true, true)
+	w.btc.voutShift = 1
+	a := newCtx(w)
+	for _, s := range restPrefixes(role, "btc")[map[string]string{"inSender": "AwaitClaimPayment", "outReceiver": "AwaitClaimInvoicePayment"}[role]] {
+		a.Step(s)
+	}
+	if msg != "" {
+		a.Step(msg)
+	}
+	rpc.set(rpcView{rpcHeight: 801010, txout: &txwatcher.TxOutResp{BestBlockHash: "match", Confirmations: 1010}})
+	for k := 0; k < 3; k++ {
+		rw.HandleCsvTx(801010 + uint64(k))
+		for i := 0; i < 100 && a.state() != "State_ClaimedCsv"; i++ {
+			time.Sleep(5 * time.Millisecond)
+		}
+	}
+	return a.state()
 }
